@@ -126,6 +126,9 @@ def sink(event, fields):
             on_resolve(fields)
         elif event == "execute":
             on_execute(fields)
+        elif event == "clear_output":
+            st = _ledger.setdefault(id(fields["sandbox"]), {"events": [], "raw": None})
+            st["events"].append({"e": "clear"})
     except Exception as e:      # the recorder must never disturb the test-suite
         TRACES.setdefault("errors", []).append("%s: %s" % (type(e).__name__, e))
 
